@@ -13,3 +13,5 @@ import RexModel.Props.C09
 #print axioms Rex.C09.step_clip_id
 #print axioms Rex.C09.step_clip_saturates
 #print axioms Rex.C09.sup_skip_iff
+#print axioms Rex.C09.C09_exec_rollout_is_iterated_run
+#print axioms Rex.C09.C09_exec_split
